@@ -1,12 +1,13 @@
 """C11 -- batch results align with inputs and do not depend on batch history,
 chunking, worker count or completion order (primary simulation target)."""
-from depsim import refparser, session, simpool
+from depsim import gen, refparser, session, simpool
 from depsim.props.base import ParserSessionProp
 from depsim.runner import Violation, add_set, bump, digest
 
 
 class C11(ParserSessionProp):
     id = 'C11'
+    fresh_alone = True      # 'parsed alone' means: in a process image that has seen no other call
     scale_every = {'quick': 300, 'thorough': 100}
     replica_rate = {'quick': 0.08, 'thorough': 0.25}
     big_batch_rate = {'quick': 0.05, 'thorough': 0.15}
@@ -127,7 +128,7 @@ class C11(ParserSessionProp):
                 sig = {'exc': rec.exception[0]}
                 if rec.exception[0] == 'MaybeEncodingError' and 'RecursionError' in rec.exception[1]:
                     # a worker could not pickle its result list: say how deep the deepest derivation is
-                    depth = max([_depth(a[2][0].tree) for a in alone if a[0] == 'ok' and a[2]] or [0])
+                    depth = max([session.alone_depth(a) for a in alone if a[0] == 'ok'] or [0])
                     sig = {'exc': 'MaybeEncodingError', 'reason': 'RecursionError while pickling the result of a worker',
                            'deepest_derivation': 'at least 250 levels' if depth >= 250 else f'{depth} levels'}
                 vio('returns', f'call raised {rec.exception[0]}: {rec.exception[1][:200]}', **sig)
@@ -159,7 +160,7 @@ class C11(ParserSessionProp):
             ctx = rec.contexts[pos]
             nontrivial = (len(batch) > 1 or pooled) and (not placeholder or any_parse)
             if nontrivial:
-                add_set(stats, 'nontrivial', digest((spec['world']['sentences'][sid]['tag']['hex'][:64], sid,
+                add_set(stats, 'nontrivial', digest((gen.arr_key(spec['world']['sentences'][sid]['tag'])[:64], sid,
                                                      session.cfg_key(cfg), ctx, rec.schedule_sig[:3])))
             # alignment: the response carries this sentence's tokens
             if not placeholder:
@@ -183,7 +184,7 @@ class C11(ParserSessionProp):
                     break
             # history / schedule independence
             if not session.responses_equal(canon, alone[pos][1]):
-                a_placeholder = refparser.is_placeholder(alone[pos][2])
+                a_placeholder = session.alone_is_placeholder(alone[pos])
                 kind = ('placeholder_vs_parse' if placeholder != a_placeholder else
                         'different_parse')
                 if placeholder and not a_placeholder:
@@ -297,10 +298,26 @@ C11.evidence_extra = _evidence_extra
 C11._tier = 'quick'
 
 
-def _tree_str(t):
-    if t[0] == 'L':
-        return f'{t[1]}'
-    return f'({t[1]}<{t[2]}{"L" if t[4] else "R"}> ' + ' '.join(_tree_str(c) for c in t[5]) + ')'
+def _tree_str(t, limit=40):
+    """bracketing of a flat pre-order canonical tree (refparser.canon_tree), first `limit` nodes"""
+    out, todo = [], []       # todo: remaining children counts of the open nodes
+    for k, node in enumerate(t):
+        if k >= limit:
+            out.append(' ...')
+            break
+        if node[0] == 'L':
+            out.append(f' {node[1]}')
+        else:
+            out.append(f' ({node[1]}<{node[2]}{"L" if node[4] else "R"}>')
+            todo.append(node[5])
+            continue
+        while todo:
+            todo[-1] -= 1
+            if todo[-1] > 0:
+                break
+            todo.pop()
+            out.append(')')
+    return ''.join(out).strip()
 
 
 PROP = C11()
